@@ -49,18 +49,16 @@ theorem replicateTruncInfo_fixed_noPanic (fx : Fix) (ht : fx.tLen = true) (hz : 
   refine NoPanic.ite (fun _ => NoPanic.fail _) (fun h2 => ?_)
   rw [slice_ok (by omega) (by omega)]
   simp only [M.pure_bind]
-  refine NoPanic.bind ?_ (fun bad _ => ?_)
-  · refine NoPanic.ite (fun hv => ?_) (fun _ => NoPanic.pure _)
-    rw [idx_ok hv]
+  rw [hz]
+  simp only [if_true]
+  generalize List.drop (i + storeSszSize) (List.take (i + storeSszSize + beVal (List.take 2 (List.drop i b))) b) = v
+  by_cases hv0 : v.length = 0
+  · rw [if_pos hv0]
     simp only [M.pure_bind]
-    exact NoPanic.pure _
-  · refine NoPanic.ite (fun _ => NoPanic.fail _) (fun _ => ?_)
-    refine NoPanic.ite (fun _ => NoPanic.fail _) (fun h3 => ?_)
-    rw [hz] at h3
-    simp only [Bool.true_and, decide_eq_true_eq] at h3
-    rw [idx_ok (by omega)]
+    exact NoPanic.ite (fun _ => NoPanic.fail _) (fun h => absurd trivial h)
+  · rw [if_neg hv0, idx_ok (by omega)]
     simp only [M.pure_bind]
-    exact NoPanic.pure _
+    refine NoPanic.ite (fun _ => NoPanic.fail _) (fun _ => NoPanic.pure _)
 
 theorem replicateTxFraming_fixed_noPanic (fx : Fix) (hmd : fx.extraLen = true) (htl : fx.hdrTail = true)
     (hv : fx.vLen = true) (ht : fx.tLen = true) (hz : fx.tZero = true) (b : Bytes) :
@@ -78,59 +76,6 @@ theorem replicateTxFraming_fixed_noPanic (fx : Fix) (hmd : fx.extraLen = true) (
   refine NoPanic.bind (replicateEntries_fixed_noPanic fx hv _ _ _ _) (fun r _ => ?_)
   refine NoPanic.bind (replicateTruncInfo_fixed_noPanic fx ht hz _ _) (fun t _ => ?_)
   exact NoPanic.ite (fun _ => NoPanic.fail _) (fun _ => NoPanic.pure _)
-
-theorem replicateEntries_rel (b : Bytes) (todo i : Nat) (acc : List EntrySpec) :
-    PanicOr (replicateEntries Fix.none b todo i acc) (replicateEntries Fix.all b todo i acc) := by
-  induction todo generalizing i acc with
-  | zero => exact PanicOr.refl _
-  | succ todo ih =>
-    unfold replicateEntries
-    c16_consts
-    refine PanicOr.ite (fun _ => PanicOr.refl _) (fun h1 => ?_)
-    simp (disch := omega) only [bind_eq, pure_eq, be16At_ok, M.pure_bind]
-    refine PanicOr.ite (fun _ => PanicOr.refl _) (fun h2 => ?_)
-    refine PanicOr.bind_right (fun key0 _ => ?_)
-    simp (disch := omega) only [sliceFrom_ok, M.pure_bind]
-    refine PanicOr.ite (fun _ => PanicOr.refl _) (fun h3 => ?_)
-    refine PanicOr.bind_right (fun r _ => ?_)
-    simp only [Fix.none_vLen, Fix.all_vLen, Bool.false_and, Bool.false_eq_true, if_false, Bool.true_and, decide_eq_true_eq]
-    refine PanicOr.guard (fun hg => M.bind_res_panic (be32At_panic hg)) (fun _ => ?_)
-    refine PanicOr.bind_right (fun vLen _ => ?_)
-    refine PanicOr.ite (fun _ => PanicOr.refl _) (fun h5 => ?_)
-    refine PanicOr.bind_right (fun v _ => ?_)
-    exact ih _ _
-
-theorem replicateTruncInfo_rel (b : Bytes) (i : Nat) :
-    PanicOr (replicateTruncInfo Fix.none b i) (replicateTruncInfo Fix.all b i) := by
-  unfold replicateTruncInfo
-  c16_consts
-  refine PanicOr.ite (fun hi => ?_) (fun _ => PanicOr.refl _)
-  simp only [Fix.none_tLen, Fix.all_tLen, Fix.none_tZero, Fix.all_tZero, Bool.false_and, Bool.false_eq_true, if_false, Bool.true_and,
-    decide_eq_true_eq]
-  refine PanicOr.guard (fun hg => M.bind_res_panic (be16At_panic hg)) (fun h1 => ?_)
-  simp (disch := omega) only [bind_eq, pure_eq, be16At_ok, M.pure_bind]
-  refine PanicOr.ite (fun _ => PanicOr.refl _) (fun h2 => ?_)
-  refine PanicOr.bind_right (fun v hv => ?_)
-  refine PanicOr.bind_right (fun bad _ => ?_)
-  refine PanicOr.ite (fun _ => PanicOr.refl _) (fun _ => ?_)
-  refine PanicOr.guard (fun hg => ?_) (fun _ => PanicOr.refl _)
-  rw [idx_panic (by omega)]
-  simp
-
-theorem replicateTxFraming_rel (b : Bytes) :
-    PanicOr (replicateTxFraming Fix.none b) (replicateTxFraming Fix.all b) := by
-  unfold replicateTxFraming
-  refine PanicOr.ite (fun _ => PanicOr.refl _) (fun h0 => ?_)
-  simp only []
-  refine PanicOr.ite (fun _ => PanicOr.refl _) (fun h1 => ?_)
-  simp only [bind_eq, pure_eq]
-  refine PanicOr.bind_right (fun hdrLen _ => ?_)
-  refine PanicOr.ite (fun _ => PanicOr.refl _) (fun h2 => ?_)
-  refine PanicOr.bind_right (fun s _ => ?_)
-  refine PanicOr.bind (txHeader_readFrom_rel _) (fun hdr => ?_)
-  refine PanicOr.bind (replicateEntries_rel _ _ _ _) (fun r => ?_)
-  refine PanicOr.bind (replicateTruncInfo_rel _ _) (fun t => ?_)
-  exact PanicOr.refl _
 
 /-! ### allocation -/
 
@@ -184,10 +129,12 @@ theorem replicateTruncInfo_alloc (fx : Fix) (b : Bytes) (i : Nat) : AllocLe (rep
   refine AllocLe.ite (fun _ => AllocLe.fail _ _) (fun _ => ?_)
   refine AllocLe.bind0 (slice_alloc _ _ _) (fun v _ => ?_)
   refine AllocLe.bind (A := 0) (B := 0) ?_ (fun bad _ => ?_) (by omega)
-  · refine AllocLe.ite (fun _ => ?_) (fun _ => AllocLe.pure _ _)
-    exact AllocLe.bind0 (idx_alloc _ _) (fun _ _ => AllocLe.pure _ _)
+  · refine AllocLe.ite (fun _ => ?_) (fun _ => ?_)
+    · refine AllocLe.ite (fun _ => AllocLe.pure _ _) (fun _ => ?_)
+      exact AllocLe.bind0 (idx_alloc _ _) (fun _ _ => AllocLe.pure _ _)
+    · refine AllocLe.ite (fun _ => ?_) (fun _ => AllocLe.pure _ _)
+      exact AllocLe.bind0 (idx_alloc _ _) (fun _ _ => AllocLe.pure _ _)
   · refine AllocLe.ite (fun _ => AllocLe.fail _ _) (fun _ => ?_)
-    refine AllocLe.ite (fun _ => AllocLe.fail _ _) (fun _ => ?_)
     exact AllocLe.bind0 (idx_alloc _ _) (fun _ _ => AllocLe.pure _ _)
 
 /-- Memory allocated by the framing part of `ReplicateTx` from input-controlled sizes: linear in the
